@@ -490,6 +490,14 @@ impl IpcMessage {
     ///
     /// Returns error if message cannot be serialized
     pub fn to_bytes(&self) -> Result<Vec<u8>> {
+        // What `from_bytes` would refuse is not written
+        if self.header.payload_size > MAX_PAYLOAD_SIZE {
+            return Err(StorageError::InvalidFormat(format!(
+                "Payload of {} bytes exceeds the maximum of {MAX_PAYLOAD_SIZE}",
+                self.header.payload_size
+            )));
+        }
+
         let mut buf = Vec::new();
         let mut cursor = Cursor::new(&mut buf);
 
